@@ -467,6 +467,28 @@ func runLocal(r *vt.Run, t vt.TB, s localSpec) {
 		return
 	}
 	r.Case(s, nontrivial, "local:table:compared")
+	// the same statement with other white space between its elements (line
+	// ends of another system, tabs, a form feed): what stands between the
+	// elements is no part of any of them
+	{
+		other := tb
+		other.Sep = sqlgen.Separators[(len(full)+len(s.Perm))%len(sqlgen.Separators)]
+		if other.Sep == tb.Sep {
+			other.Sep = ""
+		}
+		if v := other.SQL(); sqliteAccepts(r, t, "", []string{v})[0] {
+			r.Count("local:white-space-variants", 1)
+			out := parseOnce(v)
+			if out.err != "" || out.panic != "" {
+				r.Violation(t, s, "local:white-space", "%q parses; with other white space between the elements it does not (SQLite accepts both): Parse(%q) = %s%s", full, v, out.err, out.panic)
+				return
+			}
+			if !reflect.DeepEqual(out.res, fullOut.res) {
+				r.Violation(t, s, "local:white-space-report", "%q and %q differ in white space only, the reports differ: %+v / %+v", full, v, fullOut.res, out.res)
+				return
+			}
+		}
+	}
 	st, isTable := fullOut.res.(sql.CreateTableStmt)
 	if !isTable {
 		r.Violation(t, s, "local:stmt-kind", "Parse(%q) gives a %T", full, fullOut.res)
